@@ -32,7 +32,7 @@ def run_units(units, extra_args=(), timeout=3000, extra_env=None):
                     if f.endswith('.py'): hsh.update(open(os.path.join(dp, f), 'rb').read())
         ckey = hsh.hexdigest()[:16] + '-' + hashlib.sha1(repr((extra_args, sorted((extra_env or {}).items()))).encode()).hexdigest()[:8]
         os.makedirs(cache, exist_ok=True)
-        for u in list(units):
+        for u in sorted(units):          # one global lock order: two checks that share units in different orders cannot wait for each other
             cf = os.path.join(cache, f"{u}-{ckey}.json")
             for _ in range(1200):          # another check of the same seed test may be computing it right now
                 if os.path.exists(cf) or not os.path.exists(cf + '.lock'): break
